@@ -24,8 +24,9 @@ def obligations(tier, seed):
     p = packet_obs()
     # quick grids = the instances measured decisive on the unchanged tree inside the quick budget (DESIGN 0.3 C03); everything else is thorough
     P = lambda k, vals, key="PKTSEL": setattr(p[k], "quick_grid", [g for g in p[k].grid if g.get(key) in vals])
-    P("pop", (1, 3, 4, 26)); P("x27", (0, 3, 4, 5, 6), "DESSEL"); P("ait", (0, 1, 23, 24)); P("lop_parity", (1, 12, 24, 25), "ROWSEL")
+    P("pop", (1, 3, 4)); P("x27", (0, 3, 6), "DESSEL");     # pop 26 (symbolic designation -> symbolic triplet index): 7.9 GB; X/27/4, /5 (Hamming 24/18 links): > 900 s: thorough
+    P("ait", (0, 1, 23, 24)); P("lop_parity", (1, 12, 24, 25), "ROWSEL")
     p["rows"].quick_grid = [dict(MAGN=1, PKTN=k) for k in (25, 29, 30, 31)]      # X/26 continuity (PKTN=26), X/27, X/28: no verdict inside the quick budget (thorough, 12 GB cap)
-    p["rows"].mem_gb = 12
+    p["rows"].mem_gb = 12; p["pop"].mem_gb = 12; p["x27"].timeout = 2400
     p["addr_error"].tier = "thorough"; p["addr_error"].timeout = 1500; p["addr_error"].mem_gb = 12
     return prim + [p[k] for k in ("pagelink", "pagelink_any", "mot", "pop", "x27", "ait", "lop_parity", "lop_parity_x26", "header", "header_badpage", "header_timefill", "addr_error", "rows")]
